@@ -689,7 +689,7 @@ fn gen_c14(ctx: &mut Ctx) {
 
 fn reply_alphabet(own: u16, foreign: u16) -> Vec<String> {
     // every kind of bus failure is a leaf of the tree (the call must end there with the bus error)
-    let mut v = vec!["N".to_string(), "E".to_string(), "ET".to_string(), "EI".to_string(), "EW".to_string(), "EF".to_string(), "EG".to_string()];
+    let mut v = vec!["N".to_string(), "E".to_string(), "ET".to_string(), "EI".to_string(), "EW".to_string(), "EF".to_string(), "EG".to_string(), "ES".to_string(), "EB".to_string()];
     for a in [own, foreign] {
         for (_, st) in STATES.iter() {
             v.push(format!("RS.{}.{}", a, st));
@@ -698,10 +698,20 @@ fn reply_alphabet(own: u16, foreign: u16) -> Vec<String> {
             v.push(format!("AO.{}.{}", a, op));
         }
     }
+    // an address that differs from the controller's in the high byte only (same low byte)
+    let high = own ^ 0x0100;
+    for st in ["UNC", "RTR", "CRX", "CFL", "PRX", "PFL", "PLD", "PSH", "SHP", "PLP", "PSP"] {
+        v.push(format!("RS.{}.{}", high, st));
+    }
+    for (_, op) in OPS.iter() {
+        v.push(format!("AO.{}.{}", high, op));
+    }
     v.push(format!("GB.{}", own));
     v.push(format!("UN.{}.9.01", own));
     v.push("SD.0.00".to_string());
     v.push(format!("HE.{}", own));
+    // "=": the bus answers with the very message it was sent (an echo); materialised per node by the DFS
+    v.push("=".to_string());
     v
 }
 
@@ -839,7 +849,8 @@ fn dfs(ctx: &mut Ctx, op: &str, own: u16, alpha: &[String], script: &mut Vec<Str
             }
             budget -= 1;
         }
-        script.push(letter.clone());
+        let letter = if letter == "=" { str_msg(trace.last().unwrap()) } else { letter.clone() };
+        script.push(letter);
         dfs(ctx, op, own, alpha, script, budget, count, max);
         script.pop();
     }
@@ -902,8 +913,12 @@ pub fn gen_cts(ctx: &mut Ctx, n: usize, stream: u64) {
         };
         // how the far side behaves: which transfer attempts report failure, where a fault is injected
         let fail_pattern: Vec<u64> = (0..ops.len()).map(|i| if k % 8 == 0 && i == 0 { 3 } else { rng.below(4) }).collect();
-        let fault_at: i64 = if rng.chance(1, 2) { rng.below(40) as i64 } else { -1 };
-        let fault: String = rng.pick(&["E", "ET", "EI", "EF", "N", &format!("RS.{}.PFL", own), &format!("AO.{}.SRS", own ^ 1), &format!("RS.{}.SHP", own ^ 1)]).to_string();
+        // up to three deviations from the cooperative script, at random steps
+        let nfaults = [0usize, 1, 1, 2, 3][rng.below(5) as usize];
+        let fault_at: Vec<i64> = (0..nfaults).map(|_| rng.below(45) as i64).collect();
+        let fault_letters = ["E".to_string(), "ET".to_string(), "EI".to_string(), "EF".to_string(), "ES".to_string(), "EB".to_string(), "N".to_string(), "N".to_string(),
+            format!("RS.{}.PFL", own), format!("RS.{}.CRX", own), format!("AO.{}.SRS", own ^ 1), format!("RS.{}.SHP", own ^ 1), format!("RS.{}.PRX", own ^ 0x0100), format!("GB.{}", own)];
+        let fault: Vec<String> = (0..nfaults).map(|_| rng.pick(&fault_letters).clone()).collect();
         let auto = rng.chance(1, 2);
         let mut r2 = Rng::new(rng.next(), 4242);
         let fp = fail_pattern.clone();
@@ -914,8 +929,8 @@ pub fn gen_cts(ctx: &mut Ctx, n: usize, stream: u64) {
         let flt = fault.clone();
         let decide = move |trace: &[Message<'static>]| -> Option<String> {
             steps += 1;
-            if steps - 1 == fault_at {
-                return Some(flt.clone());
+            if let Some(i) = fault_at.iter().position(|f| *f == steps - 1) {
+                return Some(flt[i].clone());
             }
             let pending = trace.last().unwrap();
             // the far side answers from the address it was asked at
@@ -1083,6 +1098,7 @@ fn gen_c10(ctx: &mut Ctx) {
                 _ => "N".to_string(),
             };
             let letter = if rng.chance(1, 12) { rng.pick(&alpha).clone() } else { coop };
+            let letter = if letter == "=" { str_msg(pending) } else { letter };
             script.push(letter);
         }
         let (trace, outcome, after_err) = run_ct(&op, &script);
